@@ -42,7 +42,10 @@ def atoms(tier="quick"):
     out += strs
     out += [("pat", "a"), ("pat", "."), ("pat", "[a-z]+"), ("pat", "\\d"),
             ("pat", "a/b"), ("pat", "a//b"), ("pat", "a/"), ("pat", "'"),
-            ("pat", "")]
+            ("pat", ""),
+            # patterns render their text raw: line ends inside them survive
+            ("pat", "a\r\nb"), ("pat", "a\nb"), ("pat", "a\rb"),
+            ("pat", "a\n\rb"), ("pat", "\t#x")]
     return out
 
 
@@ -87,7 +90,9 @@ def containers(tier="quick"):
 
 
 ORDER_POOL = [3, 1.5, "b", "a", "'", [1], ("set", [2]), -1, "A",
-              ("pat", "x"), True, None, ("map", [(1, 2)])]
+              ("pat", "x"), True, None, ("map", [(1, 2)]),
+              # a list, a proper prefix of it and an extension of it
+              [], [1, 3], [1, 3, 0]]
 
 
 def hazard(p):
